@@ -287,8 +287,126 @@ def run(ctx):
             continue
         if wc is not None:
             check_security(ctx, meta, h["children"][0], wc[1])
+    declared_elsewhere(ctx)
+    zoned_timestamps(ctx)
     ctx.sample(metas[3] if len(metas) > 3 else metas[0])
     ctx.sample(metas[-1])
+
+
+def header_names(env):
+    h = xmlread.find1(xmlread.parse(env), "Header")
+    return [[c["name"][1], c.get("text")] for c in (h["children"] if h is not None else [])]
+
+
+def declared_elsewhere(ctx):
+    """Header parts are the ones declared for THIS operation's INPUT on THIS port's binding:
+    (a) a soap:header under wsdl:output (a reply header) is never sent with the request, whatever soapheaders holds;
+    (b) two ports whose bindings declare different headers for a same-named operation each send their own, in any
+        order of calls on one client."""
+    rng = ctx.rng
+    schema = ('<xsd:element name="f" type="xsd:string"/><xsd:element name="fResponse" type="xsd:string"/>'
+              '<xsd:element name="H" type="xsd:string"/><xsd:element name="R" type="xsd:string"/>'
+              '<xsd:element name="G" type="xsd:string"/>')
+    base = wsdlkit.wsdl_doc(schema, "f", "fResponse", header_parts=[("element", "x:H")]).decode()
+    out_hdr = ('<wsdl:output><soap:body use="literal"/><soap:header message="w:fHdrR" part="h" use="literal"/>'
+               '</wsdl:output>')
+    w = base.replace('<wsdl:output><soap:body use="literal"/></wsdl:output>', out_hdr, 1)
+    w = w.replace('<wsdl:portType', '<wsdl:message name="fHdrR"><wsdl:part name="h" element="x:R"/></wsdl:message>'
+                  '<wsdl:portType', 1)
+    # the same with no input header at all
+    w0 = w.replace('<soap:header message="w:fHdr0" part="h" use="literal"/>', "", 1)
+    for doc, declared in ((w, ["H"]), (w0, [])):
+        for value in (("hv",), ("hv", "surplus"), {"H": "hv", "R": "rv"}, {"R": "rv"}, "single", ()):
+            meta = {"stream": "output-headers", "input_header_parts": declared, "soapheaders": repr(value)}
+            ctx.case(common.canon(meta), True)
+            try:
+                c = wsdlkit.client(doc.encode(), nosend=True, soapheaders=value)
+                got = header_names(wsdlkit.envelope_bytes(c.service.f("x")))
+            except Exception as e:
+                ctx.fail("invocation failed for a soapheaders value", meta, repr(e), "a request")
+                continue
+            if isinstance(value, dict):
+                exp = [[n, value[n]] for n in declared if n in value]
+            elif isinstance(value, tuple):
+                exp = [[n, v] for n, v in zip(declared, value)]
+            else:
+                exp = [[declared[0], value]] if declared else []
+            if got != exp:
+                ctx.fail("the request carries a header the operation's input does not declare (or misses one)", meta,
+                         got, exp)
+    # (b) two ports, same operation name, different header declarations
+    two = base.replace('<wsdl:message name="fHdr0">', '<wsdl:message name="fHdrG"><wsdl:part name="h" element="x:G"/>'
+                       '</wsdl:message><wsdl:message name="fHdr0">', 1)
+    b1 = two[two.index('<wsdl:binding name="B"'):two.index('</wsdl:binding>') + len('</wsdl:binding>')]
+    b2 = b1.replace('name="B"', 'name="B2"').replace('w:fHdr0', 'w:fHdrG')
+    b3 = b1.replace('name="B"', 'name="B3"').replace('<soap:header message="w:fHdr0" part="h" use="literal"/>', "")
+    two = two.replace(b1, b1 + b2 + b3, 1)
+    two = two.replace('<wsdl:port name="P" binding="w:B">', '<wsdl:port name="P2" binding="w:B2"><soap:address '
+                      'location="http://verif.invalid/p2"/></wsdl:port><wsdl:port name="P3" binding="w:B3"><soap:address '
+                      'location="http://verif.invalid/p3"/></wsdl:port><wsdl:port name="P" binding="w:B">', 1)
+    want = {"P": [["H", "hv"]], "P2": [["G", "gv"]], "P3": []}
+    for _ in range(ctx.pick(6, 60)):
+        c = wsdlkit.client(two.encode(), nosend=True, soapheaders={"H": "hv", "G": "gv"})
+        seq = [rng.choice(["P", "P2", "P3"]) for _k in range(rng.randint(2, 5))]
+        meta = {"stream": "two-ports", "calls": seq}
+        ctx.case(common.canon(meta), True)
+        for k, port in enumerate(seq):
+            try:
+                got = header_names(wsdlkit.envelope_bytes(c.service[port].f("x")))
+            except Exception as e:
+                ctx.fail("invocation failed", dict(meta, at=k), repr(e), want[port])
+                break
+            if got != want[port]:
+                ctx.fail("a call through one port carries the header parts declared for another port's operation",
+                         dict(meta, at=k), got, want[port])
+                break
+
+
+class DstZone(datetime.tzinfo):
+    """A zone whose offset depends on the moment (like every zoneinfo zone): no offset without a date."""
+
+    def utcoffset(self, dt):
+        if dt is None:
+            return None
+        return datetime.timedelta(hours=2 if 4 <= dt.month <= 9 else 1)
+
+    def dst(self, dt):
+        return None if dt is None else datetime.timedelta(hours=1 if 4 <= dt.month <= 9 else 0)
+
+    def tzname(self, dt):
+        return "DST"
+
+
+def zoned_timestamps(ctx):
+    """Created / Expires carry the instant that was configured, also for zones whose offset depends on the date."""
+    from suds.wsse import Security, UsernameToken, Timestamp
+    w = make_wsdl(0, None)
+    for dt, text in ((datetime.datetime(2001, 7, 3, 4, 5, 6, tzinfo=DstZone()), "2001-07-03T04:05:06+02:00"),
+                     (datetime.datetime(2001, 1, 3, 4, 5, 6, tzinfo=DstZone()), "2001-01-03T04:05:06+01:00"),
+                     (datetime.datetime(2001, 1, 3, 4, 5, 6, tzinfo=datetime.timezone(datetime.timedelta(hours=-5))),
+                      "2001-01-03T04:05:06-05:00")):
+        meta = {"stream": "zoned-timestamps", "created": dt.isoformat()}
+        ctx.case(common.canon(meta), True)
+        s = Security()
+        t = UsernameToken("u", "p")
+        t.setcreated(dt)
+        s.tokens.append(t)
+        ts = Timestamp(60)
+        ts.created = dt
+        ts.expires = dt + datetime.timedelta(seconds=60)
+        s.tokens.append(ts)
+        try:
+            c = wsdlkit.client(w, nosend=True, wsse=s)
+            root = xmlread.parse(wsdlkit.envelope_bytes(c.service.f("x")))
+        except Exception as e:
+            ctx.fail("invocation failed with a zoned timestamp", meta, repr(e), "a request")
+            continue
+        created = [n.get("text") for n in xmlread.walk(root) if n["name"] == (WSU, "Created")]
+        expires = [n.get("text") for n in xmlread.walk(root) if n["name"] == (WSU, "Expires")]
+        exp_exp = text[:17] + "%02d" % (int(text[17:19])) + text[19:]
+        if created != [text, text] or len(expires) != 1 or not expires[0].endswith(text[19:]):
+            ctx.fail("a security timestamp does not carry the configured instant (zone offset lost or changed)", meta,
+                     {"Created": created, "Expires": expires}, {"Created": [text, text], "Expires offset": text[19:]})
 
 
 def widen(ctx):
